@@ -353,6 +353,17 @@ example :
     let s := run {} [.add [97] 5, .begin_, .add [98] 6, .rem [97], .abort, .look [98], .look [97]]
     s.cur.slots = [{ inum := 5, name := [97] }] ∧ (lookupName s.cur [98]).2 = none ∧ (lookupName s.cur [97]).2 = some (5, 0) := by decide
 
+/-- WHY AN ABORT MUST FORGET THE CACHED INODE (what `forgetInodes` is for; its unconditional call is checked on the
+    regenerated statement lists, `Props/C09.an_abort_forgets_every_inode_of_the_transaction`): a transaction removes
+    `a` and aborts; the slots are restored by the journal, but a name cache that survived the abort no longer knows `a` —
+    `LookupName` says absent although the name is on disk, and the next CREATE of `a` writes the name a second time.
+    (Seeded changes C10m, C12m, C02n, C13n keep cached inodes across some aborts.) -/
+theorem a_name_cache_kept_across_an_abort_contradicts_the_directory :
+    let s := run {} [.add [97] 5, .begin_, .rem [97]]
+    let kept : Dir := { slots := s.saved, dc := s.cur.dc }      -- the abort undoes the slots and KEEPS the cache
+    (lookupName kept [97]).2 = none ∧ lookupSlots kept.slots [97] = some (5, 0) ∧
+    ((GoNfsd.Model.NameCache.addName kept 6 [97]).1.slots.filter fun sl => sl.inum ≠ 0 ∧ sl.name = [97]).length = 2 := by decide
+
 end namecache
 
 end GoNfsd.Props.C10
